@@ -558,6 +558,14 @@ def call_py(ex, obj, name, node, st):
         o = VObj("packed" + fam, {})
         o.text = a.z
         return o
+    if obj is _ipa.IPv4Address and len(node.args) == 1:
+        a0 = ex.eval(node.args[0], st)
+        if isinstance(a0, VStr):
+            # IPv4Address(text): accepts exactly the canonical dotted quads (four decimal parts 0-255 without leading zeros)
+            ex.assumed.add("ipaddress.IPv4Address(text) raises AddressValueError exactly when text is not a canonical dotted quad (uninterpreted CANON_QUAD)")
+            ex.raise_if(st, z3.Not(uf(ex, "CANON_QUAD", S, B)(a0.z)), "AddressValueError", "IPv4Address(text)")
+            o = VObj("ipaddr", {"compressed": VStr(a0.z)})
+            return o
     if obj in (_ipa.IPv4Address, _ipa.IPv6Address):
         (a,), _ = ex.eval_args(node, st)
         if not (isinstance(a, VObj) and a.cls.startswith("packed")):
